@@ -48,8 +48,12 @@ def _detect_ssc(
                 return (file, True)
             elif suffix == "sm":
                 return (file, False)
+        # Peeking at the first parameter consumes the stream; remember where
+        # the caller left it so that it can be handed back untouched
+        start = file.tell()
         parser = parse_msd(file=file, ignore_stray_text=not strict)
     else:
+        start = None
         file, peek_file = [StringIO("".join(f)) for f in tee(file)]
         parser = parse_msd(
             string="".join(peek_file),
@@ -60,10 +64,13 @@ def _detect_ssc(
     try:
         first_param = next(parser)
     except StopIteration:
-        return (file, False)
+        first_param = None
 
-    if isinstance(file, TextIO):
-        file.seek(0)
+    if start is not None:
+        cast(TextIO, file).seek(start)
+
+    if first_param is None:
+        return (file, False)
 
     return (file, first_param.key is not None and first_param.key.upper() == "VERSION")
 
